@@ -763,4 +763,13 @@ def guard_formula(fn, site, parents, lets_text, lets_nodes=None):
                 f = _lookup_fails(par["receiver"], fn, env)
                 if f is not None:
                     conj.append(f)
+            elif A.kind(par) == "Expr::MethodCall" and par["method"]["sym"] in ("map_or", "map_or_else", "map", "and_then", "is_some_and", "inspect") and par["args"] and par["args"][-1] is p and len(p["inputs"]) == 1:
+                # `r.map_or(Ok(()), |dup| <site>)` / `r.map(|v| <site>)`: reached iff `r` holds a value, like `if let Some(dup) = r`
+                b = {}
+                pat = {"_": "Pat::TupleStruct", "attrs": [], "qself": None, "path": {"_": "Path", "leading_colon": None, "segments": [{"ident": {"_": "Ident", "sym": "Some", "span": [0, 0]}, "arguments": "PathArguments::None"}]}, "paren_token": "Paren", "elems": [p["inputs"][0]]}
+                try:
+                    conj.append(pat_formula(place_of(par["receiver"], env), pat, b))
+                    env.update(b)
+                except Exception:
+                    pass
     return f_and(conj)
